@@ -25,6 +25,7 @@ import (
 	"github.com/attestantio/dirk/services/peers"
 	"github.com/attestantio/dirk/services/sender"
 	"github.com/attestantio/dirk/services/unlocker"
+	"github.com/attestantio/dirk/util/verifhook"
 	"github.com/herumi/bls-eth-go-binary/bls"
 	"github.com/opentracing/opentracing-go"
 	"github.com/pkg/errors"
@@ -102,6 +103,7 @@ func (s *Service) OnPrepare(ctx context.Context,
 		return ErrNotCreated
 	}
 
+	verifhook.BeforeLock(&s.generationsMu, "generations", nil)
 	s.generationsMu.Lock()
 	defer s.generationsMu.Unlock()
 
@@ -135,6 +137,7 @@ func (s *Service) OnExecute(ctx context.Context, senderID uint64, account string
 	defer span.Finish()
 	log.Trace().Uint64("sender", senderID).Str("account", account).Msg("Executing")
 
+	verifhook.BeforeLock(&s.generationsMu, "generations", nil)
 	s.generationsMu.Lock()
 	defer s.generationsMu.Unlock()
 
@@ -181,6 +184,7 @@ func (s *Service) OnCommit(ctx context.Context, _ uint64, account string, confir
 	span, ctx := opentracing.StartSpanFromContext(ctx, "services.process.OnCommit")
 	defer span.Finish()
 
+	verifhook.BeforeLock(&s.generationsMu, "generations", nil)
 	s.generationsMu.Lock()
 	defer s.generationsMu.Unlock()
 
@@ -261,6 +265,7 @@ func (s *Service) OnAbort(ctx context.Context, _ uint64, account string) error {
 	span, ctx := opentracing.StartSpanFromContext(ctx, "services.process.OnAbort")
 	defer span.Finish()
 
+	verifhook.BeforeLock(&s.generationsMu, "generations", nil)
 	s.generationsMu.Lock()
 	defer s.generationsMu.Unlock()
 
@@ -288,6 +293,7 @@ func (s *Service) OnContribute(ctx context.Context,
 	span, ctx := opentracing.StartSpanFromContext(ctx, "services.process.OnContribute")
 	defer span.Finish()
 
+	verifhook.BeforeLock(&s.generationsMu, "generations", nil)
 	s.generationsMu.Lock()
 	defer s.generationsMu.Unlock()
 
